@@ -11,7 +11,7 @@ from .. import common, crash, cropfs, tlc
 
 PHASES_Q = [("none", "joblib", "sow"), ("none", "joblib", "grow"), ("none", "joblib", "grow_missing"), ("none", "joblib", "reap"),
             ("harvester", "joblib", "reap"), ("harvester", "h5netcdf", "reap"), ("sampler", "joblib", "reap"),
-            ("harvester", "joblib", "sow")]
+            ("harvester", "joblib", "sow"), ("sampler", "csv", "reap")]
 PHASES_T = PHASES_Q + [("runner", "joblib", "reap"), ("harvester", "joblib", "grow_missing_all"), ("sampler", "joblib", "sow"),
                        ("none", "joblib", "grow_missing_all")]
 
@@ -67,7 +67,7 @@ def _phase_job(job):
     try:
         crash.prepare(pre_box, phase)
         pre = crash.dir_state(pre_box)
-        if farmer == "harvester":
+        if farmer in ("harvester", "sampler"):
             pre["data"] = "complete"
         rec_box = pre_box.copy()
         try:
